@@ -149,7 +149,7 @@ extern int mpt_data_convert_uint8(const uint8_t *from, MPT_TYPE(type) type, void
 	#ifdef _MPT_FLOAT_EXTENDED_H
 		case 'e':
 			if (dest) *((long double *) dest) = val;
-			return sizeof(double);
+			return sizeof(long double);
 	#endif
 		case MPT_type_toVector('y'):
 			if (dest) {
